@@ -70,7 +70,7 @@ Proof. exact (c16_oracles h R0 cs R0_ok cs_idle). Qed.
 End C16.
 
 (* the program counters are derived from the instruction lists that T1 re-extracts from the source
-   (GenEq_AggOps: gen_prog_* = prog_*): file operations in program order with the locks around them, and
+   (lemmas of GenEq_AggOps: generated programs = model programs): file operations in program order with the locks around them, and
    the file effect of each step is the effect of the instruction at its counter *)
 Theorem C16_counters_from_instructions :
   flat prog_evaluate = flat_map at_pc [Start; HoldE; ReadE true; ReadE false; ClaimedE; Evaluating; WantF; HoldF; WroteF; Done false]
